@@ -22,6 +22,7 @@ META = {
     'assumptions': ['x86-TSO: only store->load reordering is possible; xchg with memory / lock-prefixed RMW / mfence are '
                     'full fences', 'volatile accesses are not reordered with each other by the compiler'],
 }
+META['explanation'] += ' Owner-only operations accept the env field of the running thread only (C02.5).'
 
 NATIVE = 'myth_if_native.c'
 Q = 'myth_thread_queue.'
